@@ -790,7 +790,7 @@ func (g *Gen) directive() *MDir {
 		d.Sample = g.amountWith(g.pickCommodityNonEmpty(), false)
 		d.Sample.Form = strings.TrimSuffix(d.Sample.Form, "")
 		// the P commodity is written bare; quoted only when it needs quotes
-		if strings.ContainsAny(c.Sym, " -0123456789") {
+		if strings.ContainsAny(c.Sym, " -0123456789") || strings.HasPrefix(c.Sym, "$$") {
 			d.Sample = g.amountWith(plainCommodities[0], false)
 			d.Symbol = "XAU"
 		}
